@@ -15,9 +15,9 @@ const (
 	c04Triples      = c04NodeStates * c04NodeStates * c04NodeStates
 	c04GlobalCombos = 64 // memberlist x policy x ignoreExcludeLB x extra nil-node endpoint x 4 address shapes
 	c04EnumThorough = 512
-	c04RandThorough = 500
-	c04EnumQuick    = 480
-	c04RandQuick    = 150
+	c04RandThorough = 4000
+	c04EnumQuick    = 1000
+	c04RandQuick    = 300
 	c04QuickTriples = 8
 	c04RandPerCase  = 100
 )
